@@ -15,6 +15,9 @@ pub enum Real {
     Fb,
     Struct,
     AliasMix,
+    /// node i is a function block when bit i of the mask is set, a structure otherwise
+    /// (a function block holds instances / structure variables, a structure holds elements of either kind)
+    FbStructMix(u32),
 }
 
 impl Real {
@@ -23,6 +26,7 @@ impl Real {
             Real::Fb => "fb",
             Real::Struct => "struct",
             Real::AliasMix => "alias-mix",
+            Real::FbStructMix(_) => "fb-struct-mix",
         }
     }
     fn from(s: &str) -> Option<Real> {
@@ -30,6 +34,7 @@ impl Real {
             "fb" => Some(Real::Fb),
             "struct" => Some(Real::Struct),
             "alias-mix" => Some(Real::AliasMix),
+            x if x.starts_with("fb-struct-mix") => Some(Real::FbStructMix(x.rsplit(':').next().and_then(|m| m.parse().ok()).unwrap_or(0b0101))),
             _ => None,
         }
     }
@@ -132,6 +137,38 @@ pub fn realise_spelled(g: &Graph, real: Real, order: &[usize], refs_other_case: 
                 s.push_str("END_FUNCTION_BLOCK\n");
             }
         }
+        Real::FbStructMix(mask) => {
+            let is_fb = |i: usize| mask >> (i % 32) & 1 == 1;
+            let name = |i: usize, as_ref: bool| -> String {
+                let (f, t) = if as_ref { (rf, rt) } else { ("F", "T") };
+                if is_fb(i) { format!("{}{}", f, i) } else { format!("{}{}", t, i) }
+            };
+            for &i in order {
+                if is_fb(i) {
+                    s.push_str(&format!("FUNCTION_BLOCK {}\n", name(i, false)));
+                    if g.out_degree(i) != 0 {
+                        s.push_str("VAR\n");
+                        for j in 0..g.n {
+                            if g.has(i, j) {
+                                s.push_str(&format!("  v{}_{} : {};\n", i, j, name(j, true)));
+                            }
+                        }
+                        s.push_str("END_VAR\n");
+                    }
+                    s.push_str("END_FUNCTION_BLOCK\n");
+                } else if g.out_degree(i) == 0 {
+                    s.push_str(&format!("TYPE {} : (A{}, B{}); END_TYPE\n", name(i, false), i, i));
+                } else {
+                    s.push_str(&format!("TYPE {} : STRUCT\n", name(i, false)));
+                    for j in 0..g.n {
+                        if g.has(i, j) {
+                            s.push_str(&format!("    e{}_{} : {};\n", i, j, name(j, true)));
+                        }
+                    }
+                    s.push_str("  END_STRUCT;\nEND_TYPE\n");
+                }
+            }
+        }
         Real::Struct | Real::AliasMix => {
             s.push_str("TYPE\n");
             for &i in order {
@@ -164,7 +201,7 @@ fn class(g: &Graph, real: Real) -> String {
     }
     let selfloop = (0..g.n).any(|i| g.has(i, i));
     match real {
-        Real::Fb | Real::Struct => {
+        Real::Fb | Real::Struct | Real::FbStructMix(_) => {
             if selfloop {
                 "has-self-loop".into()
             } else {
@@ -240,7 +277,7 @@ fn judge(g: &Graph, real: Real, order_name: &str, family: &str) -> Res {
         );
     }
     let replay = json!({
-        "realisation": real.name(), "n": g.n, "edges": g.edges(), "order": order_name,
+        "realisation": match real { Real::FbStructMix(m) => format!("fb-struct-mix:{}", m), r => r.name().to_string() }, "n": g.n, "edges": g.edges(), "order": order_name,
         "family": family, "expected_cyclic": cyclic, "observed": verdict.short(), "program": text,
     });
     let canon = crate::util::fnv(&text);
@@ -341,7 +378,7 @@ fn families() -> Vec<(String, Graph)> {
 }
 
 pub fn run(ctx: &mut Ctx) {
-    ctx.rule = "every digraph on n nodes (bitmask over n*n possible edges, self-loops included) x 3 realisations (FB instances; all-struct types; alias for out-degree 1 else struct) x {ascending, descending declaration order, ascending with every reference spelled in the other letter case}; distinct = distinct program text; all are non-trivial (each is a different reference graph)".into();
+    ctx.rule = "every digraph on n nodes (bitmask over n*n possible edges, self-loops included) x realisations (FB instances; all-struct types; alias for out-degree 1 else struct; function blocks and structures mixed — every assignment of the two kinds for n <= 3, four assignments for n = 4) x {ascending, descending declaration order, ascending with every reference spelled in the other letter case}; distinct = distinct program text; all are non-trivial (each is a different reference graph)".into();
     ctx.assumptions.push("reference oracle: a digraph is cyclic iff iterated deletion of successor-free nodes leaves a non-empty rest (harness code, independent of petgraph)".into());
     ctx.assumptions.push("recursion is 'reported' iff the codes contain P0010 or P0013; other codes (e.g. P9999 for unsupported constructs) are ignored in the acyclic direction".into());
     let reals = [Real::Fb, Real::Struct, Real::AliasMix];
@@ -367,8 +404,20 @@ pub fn run(ctx: &mut Ctx) {
             }
         }
     }
+    // mixed function-block / structure graphs: every assignment of kinds with both kinds present (n <= 3),
+    // the alternating and the half-half assignment for n = 4
+    for n in 2..=max_n {
+        let bits = n * n;
+        let masks: Vec<u32> = if n <= 3 { (1..(1u32 << n) - 1).collect() } else { vec![0b0101, 0b1010, 0b0011, 0b1100] };
+        for mask in 0u64..(1u64 << bits) {
+            let g = Graph::from_mask(n, mask);
+            for km in &masks {
+                cases.push(Case { g: g.clone(), real: Real::FbStructMix(*km), order_name: "asc", family: format!("mix-n{}", n) });
+            }
+        }
+    }
     for (name, g) in families() {
-        for real in reals {
+        for real in [Real::Fb, Real::Struct, Real::AliasMix, Real::FbStructMix(0x5555_5555)] {
             for o in ["asc", "desc"] {
                 cases.push(Case {
                     g: g.clone(),
